@@ -38,11 +38,14 @@ BASES = ['Integer', 'Unicode', 'Decimal', 'Integer32', 'UnsignedInteger8', 'Unsi
 # roots that are not pooled but are part of the model's initial heap
 ROOTS = ['ComplexModel', 'Array', 'Iterable', 'XmlAttribute']
 
+# `type_attrs` of the protocol objects every history has (customize(prot=p)); plain attribute names only
+PROT_SPECS = [{}, {'empty_is_none': True}, {'min_occurs': 1, 'nillable': False}]
+
 # attributes the model tracks (the "public constraints" of a type)
 MODEL_KEYS = ['min_occurs', 'max_occurs', 'nillable', 'default', 'values', 'sub_name', 'exc', 'exc_table', 'exc_db',
               'validate_on_assignment', 'read_only', 'min_len', 'max_len', 'pattern', 'ge', 'gt', 'le', 'lt',
               'total_digits', 'fraction_digits', 'max_str_len', 'min_bound', 'max_bound', 'encoding', 'foo',
-              'primary_key', 'index', 'unique', '_pattern_re']
+              'primary_key', 'index', 'unique', '_pattern_re', 'empty_is_none']
 # attributes that every customisation (re)creates for its own bookkeeping; never part of the observation
 BOOKKEEPING = {'parent_variant', 'child_attrs', 'child_attrs_all', 'child_attrs_noexc', 'sqla_mapper_args', 'methods'}
 
@@ -207,6 +210,12 @@ class Impl:
     def __init__(self, tag='H'):
         self.pool = [base_class(n) for n in BASES]
         self.tag = tag
+        from spyne.protocol import ProtocolBase
+        self.prots = []
+        for spec in PROT_SPECS:
+            p = ProtocolBase()
+            p.type_attrs = dict(spec)
+            self.prots.append(p)
         self.registry = {}      # id -> class: everything ever reachable from the pool (kept alive)
         self.created = 0
         self.walk()
@@ -221,6 +230,7 @@ class Impl:
             v = getattr(c, a, None)
             if isinstance(v, type):
                 out.append(v)
+        out += [b for b in c.__bases__ if b.__dict__.get('__module__') == 'c15hist']
         var = getattr(c.Attributes, '_variants', None)
         if var is not None and c.__dict__.get('__module__') == 'c15hist':
             # (the variants of the library's own roots - every Array ever made - are not part of this history)
@@ -276,6 +286,8 @@ class Impl:
                     kw['child_attrs'] = {n: self.kw(v) for n, v in op['ca']}
                 if op.get('caa') is not None:
                     kw['child_attrs_all'] = self.kw(op['caa'])
+                if op.get('prot') is not None:
+                    kw['prot'] = self.prots[op['prot']]
                 if is_complex(src) or kind_of(src) == 'xmlattr':
                     new = src.customize(**kw)
                 else:
@@ -299,10 +311,13 @@ class Impl:
                     body[n] = self.pool[t]
                 base = cx.ComplexModel if op.get('base') is None else self.pool[op['base']]
                 body['__module__'] = 'c15hist'
+                if op.get('asMixin'):
+                    body['__mixin__'] = True
                 if op.get('attrs') is not None:
                     # class K(Base):  class Attributes(Base.Attributes): <assignments>
                     body['Attributes'] = type(base.Attributes)('Attributes', (base.Attributes,), dict(self.kw(op['attrs'])))
-                new = cx.ComplexModelMeta(op['name'], (base,), body)
+                bases = tuple(self.pool[m] for m in op.get('mixins') or ()) + (base,)
+                new = cx.ComplexModelMeta(op['name'], bases, body)
             elif k == 'append':
                 self.pool[op['c']].append_field(op['name'], self.pool[op['t']])
             elif k == 'insert':
@@ -531,7 +546,11 @@ def gen_op(rng, impl, step, serial):
                 other = [v for v in table[a] if cval(v) != cval(cur)]
                 if other:
                     kw = [p for p in kw if p[0] != a] + [[a, aval(rng.choice(other))]]
-        return {'k': 'cust', 'src': i, 'kw': kw}
+        op = {'k': 'cust', 'src': i, 'kw': kw}
+        if rng.random() < 0.15:
+            op['prot'] = rng.randrange(len(PROT_SPECS))
+            op['kw'] = [p for p in kw if p[0] not in ('type_name',)]
+        return op
     if name in ('cust_complex', 'cust_array'):
         i = rng.choice(cplx if name == 'cust_complex' else arrs)
         op = {'k': 'cust', 'src': i, 'kw': gen_kw(rng, 'complex')}
@@ -543,6 +562,8 @@ def gen_op(rng, impl, step, serial):
             op['ca'] = [[n, gen_kw(rng, 'any', n=rng.choice([1, 2]), for_child=True)] for n in dict.fromkeys(ks)]
         if 0.35 < r < 0.6:
             op['caa'] = gen_kw(rng, 'any', n=rng.choice([1, 1, 2]), for_child=True)
+        if rng.random() < 0.15:
+            op['prot'] = rng.randrange(len(PROT_SPECS))
         if r >= 0.78:
             # both dicts, a field name that does not exist yet, the same key with DIFFERENT values
             table = {'min_occurs': [0, 1, 2], 'max_occurs': [1, 2, 5], 'nillable': [True, False], 'sub_name': ['alt', 'other'],
@@ -562,11 +583,21 @@ def gen_op(rng, impl, step, serial):
         fields = [[n, rng.choice(idx)] for n in names]
         base = None
         # (a customised class with own fields cannot be subclassed: AssertionError; one without is not modelled)
-        cand = [i for i in cplx if pool[i].__orig__ is None or len(pool[i]._type_info) > 0]
+        cand = [i for i in cplx if (pool[i].__orig__ is None or len(pool[i]._type_info) > 0)
+                and not getattr(pool[i], '__mixin__', False)]      # (a mixin as only base: use 'mixins')
         if cand and rng.random() < 0.55:
             base = rng.choice(cand)
         op = {'k': 'sub', 'name': 'K%d_%d' % (serial, step), 'base': base, 'ns': rng.choice([None, 'ns.a', 'ns.k']),
               'fields': fields}
+        mixable = [i for i in cplx if pool[i].__dict__.get('__mixin__') is True and pool[i].__orig__ is None]
+        if base is None and rng.random() < 0.12 and nf >= 1:
+            op['asMixin'] = True            # class M(ComplexModel): __mixin__ = True
+            op['ns'] = op['ns'] or 'ns.a'
+        if base is not None:        # (Python refuses a mixin that the base class already has: no consistent MRO)
+            mixable = [i for i in mixable if pool[i] not in pool[base].__mro__]
+        if 'asMixin' not in op and mixable and rng.random() < 0.5:
+            op['mixins'] = rng.sample(mixable, min(len(mixable), rng.choice([1, 1, 2])))
+            op['ns'] = op['ns'] or 'ns.a'
         if rng.random() < 0.4:
             # the class declares its own `class Attributes(Base.Attributes)`, with or without assignments
             table = {'min_occurs': [0, 1], 'max_occurs': [1, 2], 'nillable': [True, False], 'sub_name': ['alt'],
@@ -645,6 +676,19 @@ def measure_facts():
     Bx.customize(min_occurs=1)
     Bx.append_field('zz', P.Unicode)
     f['varRuleX'] = 'inheritedFromBase' if 'zz' in A1x._type_info else 'ownPerClass'
+    # customize(prot=p): are the keywords merged into a copy of the protocol's type_attrs?
+    from spyne.protocol import ProtocolBase
+    pr = ProtocolBase()
+    pr.type_attrs = {'empty_is_none': True}
+    P.Unicode.customize(prot=pr, max_len=4)
+    f['protCopy'] = 'copied' if pr.type_attrs == {'empty_is_none': True} else 'shared'
+    f['prots'] = [[[k, aval(v)] for k, v in spec.items()] for spec in PROT_SPECS]
+    # fields of `__mixin__` bases: first, in their own order?
+    Mx = cx.ComplexModelMeta('C15FactMx', (cx.ComplexModel,), odict([('__module__', 'c15hist'), ('__mixin__', True),
+                                                                   ('x', P.Integer), ('y', P.Integer), ('z', P.Integer)]))
+    Kx = cx.ComplexModelMeta('C15FactKx', (Mx, cx.ComplexModel), odict([('__module__', 'c15hist'), ('c', P.Integer)]))
+    keys = list(Kx._type_info.keys())
+    f['mixinOrder'] = 'declared' if keys == ['x', 'y', 'z', 'c'] else ('reversed' if keys == ['z', 'y', 'x', 'c'] else 'other')
     # order of the delayed child attributes when a field is added later: does the field's own entry win?
     for key, how in (('delayAppend', 'append'), ('delayInsert', 'insert')):
         Ad = cx.ComplexModelMeta('C15FactD' + how, (cx.ComplexModel,), odict([('__module__', 'c15hist'), ('a', P.Integer)]))
@@ -659,8 +703,15 @@ def measure_facts():
     pa = P.Unicode(pattern='[a-z]+')(pattern='[0-9]+')
     f['patRule'] = 'always' if pa.Attributes._pattern_re.pattern == '[0-9]+' else 'onlyWhenUnset'
     # does customising a number keep its max_str_len?
-    f['mslRule'] = 'followsRequested' if (P.Integer32(ge=0).Attributes.max_str_len == P.Integer32.Attributes.max_str_len
-                                          and P.Decimal(total_digits=5).Attributes.max_str_len == 7) else 'resetsFromParent'
+    # ... and does total_digits=d give d + k for one offset k (whatever the library's k is: separator, sign, ...)?
+    m5 = P.Decimal(total_digits=5).Attributes.max_str_len
+    m9 = P.Decimal(total_digits=9).Attributes.max_str_len
+    follows = (P.Integer32(ge=0).Attributes.max_str_len == P.Integer32.Attributes.max_str_len
+               and m5 != INF and m9 != INF and m5 - 5 == m9 - 9 and m5 >= 5)
+    f['mslRule'] = 'followsRequested' if follows else 'resetsFromParent'
+    f['mslExtra'] = int(m5) - 5 if follows else 2
+    global MSL_EXTRA
+    MSL_EXTRA = f['mslExtra'] if follows else None
     # is the column-keyword dict of sqla_column_args a copy of the source's, or the same object?
     code = P.Unicode(max_len=32)
     code(pk=True)
@@ -691,7 +742,8 @@ def measure_facts():
     return f
 
 
-GOOD = {'mandRule': 'copies', 'varRule': 'ownPerClass', 'varRuleX': 'ownPerClass', 'patRule': 'always', 'delayAppend': 'allFirst', 'delayInsert': 'allFirst', 'mslRule': 'followsRequested', 'colCopy': 'deep',
+MSL_EXTRA = None
+GOOD = {'mandRule': 'copies', 'varRule': 'ownPerClass', 'varRuleX': 'ownPerClass', 'patRule': 'always', 'delayAppend': 'allFirst', 'delayInsert': 'allFirst', 'protCopy': 'copied', 'mixinOrder': 'declared', 'mslRule': 'followsRequested', 'colCopy': 'deep',
         'dictOrdered': True}
 
 
@@ -751,7 +803,11 @@ def facts15 : Facts15 where
   patRule := .%s
   delayAppend := .%s
   delayInsert := .%s
+  protCopy := .%s
+  mixinOrder := .%s
+  prots := [%s]
   mslRule := .%s
+  mslExtra := %d
   colCopy := .%s
   dictOrdered := %s
   mandPrefix := %s
@@ -770,7 +826,8 @@ def facts15 : Facts15 where
   xmlattrRoot := %d
 
 end SpyneModel.Generated
-''' % (f['mandRule'], f['varRule'], f['varRuleX'], f['patRule'], f['delayAppend'], f['delayInsert'], f['mslRule'], f['colCopy'], b(f['dictOrdered']), lean_str(f['mandPrefix']), lean_str(f['mandSuffix']),
+''' % (f['mandRule'], f['varRule'], f['varRuleX'], f['patRule'], f['delayAppend'], f['delayInsert'], f['protCopy'], f['mixinOrder'],
+       ', '.join(lean_kw(x) for x in f['prots']), f['mslRule'], f['mslExtra'], f['colCopy'], b(f['dictOrdered']), lean_str(f['mandPrefix']), lean_str(f['mandSuffix']),
        lean_str(f['arrPrefix']), lean_str(f['arrSuffix']), ', '.join(lean_str(s) for s in f['prefNs']),
        ', '.join(lean_str(s) for s in MODEL_KEYS), lean_kw(f['numDefaults']), lean_kw(f['uniDefaults']),
        ',\n'.join(lines), names.index('ComplexModel'), names.index('Array'), names.index('Iterable'),
@@ -810,7 +867,7 @@ def norm_requested(kw):
     out = {}
     doc = None
     for k, v in kw.items():
-        if k.startswith('_') or k in ('type_name', 'child_attrs', 'child_attrs_all'):
+        if k.startswith('_') or k in ('type_name', 'child_attrs', 'child_attrs_all', 'prot', 'protocol', 'p'):
             continue
         if k == 'doc':
             doc = v
@@ -870,8 +927,10 @@ def check_exact(ctx, new, src, kw, opk, report):
     derived = {'sqla_column_args', 'translations'}
     if 'total_digits' in req or 'max_str_len' in req:
         derived.add('max_str_len')          # documented to follow total_digits (+ separator and sign)
+        msl = getattr(new.Attributes, 'max_str_len', None)
+        # (relative to the library's own offset, measured in T1 - not to a constant of ours)
         if req.get('max_str_len') is None and req.get('total_digits') is not None and \
-                getattr(new.Attributes, 'max_str_len', None) != req['total_digits'] + 2:
+                not (msl is not None and msl != INF and (MSL_EXTRA is None or msl == req['total_digits'] + MSL_EXTRA)):
             report('exact:derived:max_str_len', 'total_digits=%r requested, max_str_len is %r' % (req['total_digits'], getattr(new.Attributes, 'max_str_len', None)))
     if 'values' in req:
         derived.add('values_dict')
@@ -1043,6 +1102,11 @@ class Oracle:
                 self.report('frame:%s:%s:%s' % (k, kind_of(c), '+'.join(changed)),
                             '%s (%s) changed a %s it must leave alone (%s: %s)' % (k, res, kind_of(c), c.__name__, ', '.join(changed)),
                             {'changed': json.loads(json.dumps(detail, default=str))})
+        # ---- the protocols' own defaults are not a place to merge keywords into
+        for pi, (pr, spec) in enumerate(zip(impl.prots, PROT_SPECS)):
+            if pr.type_attrs != spec:
+                self.report('frame:prot:type_attrs', '%s (%s) changed the type_attrs of protocol %d from %r to %r' % (
+                    k, res, pi, spec, {a: b for a, b in pr.type_attrs.items() if a not in ('prot', 'child_attrs', 'child_attrs_all')}))
         # ---- the verdict function of every new type is the one its public facets call for
         for i, c in impl.registry.items():
             if i in self.prev:
@@ -1093,6 +1157,9 @@ class Oracle:
             # ---- exactly the requested constraints
             if k == 'cust':
                 kw = impl.kw(op['kw'])
+                if op.get('prot') is not None and PROT_SPECS[op['prot']]:
+                    # the protocol's defaults, then what was asked for
+                    kw = [dict(PROT_SPECS[op['prot']]), kw]
                 check_exact(self.ctx, new, pre['src'], kw, 'cust', self.report)
                 if is_complex(new):
                     if [n for n, _ in pre['src_fields']] != list(new._type_info.keys()):
@@ -1159,13 +1226,18 @@ class Oracle:
                     kw['max_occurs'] = 'unbounded'
                 check_exact(self.ctx, new, src, kw, 'array-flat', self.report)
             elif k == 'sub':
-                want = [n for n, _ in op['fields']]
+                mix = []
+                for m in op.get('mixins') or ():
+                    mix += [n for n in expected_flat(impl.pool[m]) if n not in mix]
+                want = mix + [n for n, _ in op['fields'] if n not in mix]
                 if list(new._type_info.keys()) != want:
                     self.report('order:declared', 'declared %r, _type_info has %r' % (want, list(new._type_info.keys())))
                 for a, v in (op.get('attrs') or []):
                     if cval(getattr(new.Attributes, a, None)) != cval(unaval(v)):
                         self.report('exact:sub:attrs', 'attribute %s declared in the class statement is not in force' % a)
                 for n, t in op['fields']:
+                    if n in mix:
+                        continue
                     if new._type_info[n] is not impl.pool[t]:
                         self.report('exact:sub:fieldtype', 'declared field type replaced')
             # ---- evolution reaches the class and all its variants, nobody else (frame above)
@@ -1376,6 +1448,9 @@ def run_history(ctx, hid, ops=None, rng=None, length=0, with_schema=False, oracl
     return done, trace, impl
 
 
+SPEC_PROTS_JSON = [[[k, aval(v)] for k, v in spec.items()] for spec in PROT_SPECS]
+
+
 def compare_with_model(ctx, runs):
     """T2: `runs` = [(hid, ops, trace)]"""
     answers = model_parallel(ctx, [{'op': 'run', 'bases': len(BASES), 'ops': ops} for _, ops, _ in runs])
@@ -1385,6 +1460,9 @@ def compare_with_model(ctx, runs):
         steps = a['steps']
         for si, ((res, d), ms) in enumerate(zip(trace, steps)):
             ok = (res == ms['res']) and d == ms['delta']
+            if ok and 'prots' in ms and ms['prots'] != SPEC_PROTS_JSON:
+                ctx.disagree('prots', {'hid': hid, 'history': ops[:si], 'step': si - 1}, SPEC_PROTS_JSON, ms['prots'])
+                break
             if not ok:
                 what = 'result' if res != ms['res'] else 'snapshot'
                 di, dm = dict((i, s) for i, s in d), dict((i, s) for i, s in ms['delta'])
@@ -1512,6 +1590,20 @@ FACT_WITNESS = {
                     {'k': 'insert', 'c': 8, 'idx': 0, 'name': 'later', 't': U_},
                     {'k': 'cust', 'src': 8, 'kw': [], 'ca': [['z2', _kw(sub_name='alt')]], 'caa': _kw(sub_name='other')},
                     {'k': 'insert', 'c': 8, 'idx': 1, 'name': 'z2', 't': B_}, {'k': 'append', 'c': 8, 'name': 'z2', 't': I_}][:3] + [{'k': 'insert', 'c': 8, 'idx': 0, 'name': 'later', 't': U_}],
+    'protCopy': [{'k': 'sub', 'name': 'Person', 'base': None, 'ns': 'ns.a', 'fields': [['name', U_], ['age', I_]]},
+                 {'k': 'sub', 'name': 'Pet', 'base': None, 'ns': 'ns.a', 'fields': [['name', U_], ['legs', I_]]},
+                 {'k': 'cust', 'src': U_, 'kw': _kw(max_len=4), 'prot': 1},
+                 {'k': 'cust', 'src': 8, 'kw': [], 'ca': [['name', _kw(max_len=2)]], 'prot': 1},
+                 {'k': 'cust', 'src': U_, 'kw': [], 'prot': 1}, {'k': 'cust', 'src': 9, 'kw': [], 'prot': 1},
+                 {'k': 'cust', 'src': I_, 'kw': _kw(ge=0), 'prot': 2}, {'k': 'cust', 'src': I_, 'kw': _kw(min_occurs=0), 'prot': 2},
+                 {'k': 'cust', 'src': I_, 'kw': _kw(le=5), 'prot': 0}, {'k': 'cust', 'src': U_, 'kw': [], 'prot': 2}],
+    'mixinOrder': [{'k': 'sub', 'name': 'M1', 'base': None, 'ns': 'ns.a', 'fields': [['x', I_], ['y', U_], ['z', B_]], 'asMixin': True},
+                   {'k': 'sub', 'name': 'M2', 'base': None, 'ns': 'ns.a', 'fields': [['u', I_], ['v', U_]], 'asMixin': True},
+                   {'k': 'sub', 'name': 'PA', 'base': None, 'ns': 'ns.a', 'fields': [['a', I_]]},
+                   {'k': 'sub', 'name': 'K1', 'base': None, 'ns': 'ns.a', 'fields': [['c', I_]], 'mixins': [8]},
+                   {'k': 'sub', 'name': 'K2', 'base': 10, 'ns': 'ns.a', 'fields': [['c', I_], ['y', I_]], 'mixins': [8, 9]},
+                   {'k': 'cust', 'src': 12, 'kw': _kw(min_occurs=1)}, {'k': 'append', 'c': 12, 'name': 'w', 't': U_},
+                   {'k': 'sub', 'name': 'K3', 'base': 11, 'ns': 'ns.a', 'fields': [['d', I_]], 'mixins': [9], 'attrs': _kw(foo=1)}],
     'mslRule': [{'k': 'cust', 'src': I32_, 'kw': _kw(ge=0)}, {'k': 'cust', 'src': D_, 'kw': _kw(total_digits=5)}],
     'colCopy': [{'k': 'cust', 'src': U_, 'kw': _kw(max_len=32)}, {'k': 'cust', 'src': 8, 'kw': _kw(pk=True)},
                 {'k': 'cust', 'src': 8, 'kw': _kw(min_len=2)},
@@ -1545,8 +1637,10 @@ def run(ctx):
         ctx.hit('corpus')
     # ---- the known recursive-type history (outside the generated space)
     recursive_case(ctx)
+    # ---- class statements with SelfReference fields (T3 only)
+    selfref_cases(ctx)
     # ---- random histories
-    n = 1500 if ctx.thorough else 170
+    n = 1500 if ctx.thorough else 150
     for hid in range(n):
         length = ctx.rng.choice([8, 12, 16, 20, 24, 30, 40] if ctx.thorough else [8, 12, 16, 20, 24, 30])
         done, trace, _ = run_history(ctx, hid, rng=ctx.rng, length=length, with_schema=hid < nschema)
@@ -1567,6 +1661,70 @@ def run(ctx):
                        '(8-40 ops over a growing pool starting from 8 primitives: primitive/complex/array customisation with '
                        'attribute aliases, child_attrs, child_attrs_all, Array/Iterable/unwrapped, Mandatory, subclassing, '
                        'append_field, insert_field, XmlAttribute); distinct = distinct (history, step, op, outcome); all non-trivial')
+
+
+SELF_KINDS = ['int', 'uni', 'self', 'self_cust', 'self_array', 'self_cust2']
+
+
+def selfref_check(ctx, spec, serial):
+    """class statement with SelfReference fields (plain, customized, in an Array): afterwards neither the class nor any
+    variant created while the placeholders were being resolved may still hold a placeholder. T3 only: recursive
+    types are outside the Lean model."""
+    cx, P, B, ModelBase = impl_env()
+    from spyne.util.odict import odict
+    body = odict([('__module__', 'c15hist'), ('__namespace__', 'ns.self')])
+    for n, kind in spec:
+        body[n] = {'int': P.Integer, 'uni': P.Unicode, 'self': cx.SelfReference,
+                   'self_cust': cx.SelfReference.customize(min_occurs=1),
+                   'self_cust2': cx.SelfReference.customize(nillable=False, max_occurs=2),
+                   'self_array': cx.Array(cx.SelfReference)}[kind]
+    try:
+        K = cx.ComplexModelMeta('S%d' % serial, (cx.ComplexModel,), body)
+    except Exception as e:
+        ctx.hit('selfref:crash:' + type(e).__name__)
+        ctx.finding('selfref:class-statement-raises', 'class statement with self references raises %s' % type(e).__name__,
+                    {'oracle': 'selfref', 'spec': spec})
+        return
+
+    def placeholder(t):
+        if issubclass(t, cx.SelfReference):
+            return True
+        if issubclass(t, cx.Array):
+            return any(issubclass(m, cx.SelfReference) for m in t._type_info.values())
+        return False
+    ctx.cov['evaluations'] += 1
+    ctx.hit('selfref-checked')
+    names = [n for n, _ in spec]
+    for who, c in [('class', K)] + [('variant', v) for v in (K.Attributes._variants or ())]:
+        if list(c._type_info.keys()) != names:
+            ctx.finding('selfref:%s-fields' % who, 'fields of the %s are %r, declared %r' % (who, list(c._type_info.keys()), names),
+                        {'oracle': 'selfref', 'spec': spec})
+        left = [n for n, t in c._type_info.items() if placeholder(t)]
+        if left:
+            ctx.finding('selfref:%s-keeps-placeholder' % who,
+                        'after the class statement the %s still has raw SelfReference placeholders in %r' % (who, left),
+                        {'oracle': 'selfref', 'spec': spec})
+    for n, kind in spec:
+        t = K._type_info[n]
+        if kind == 'self' and t is not K:
+            ctx.finding('selfref:plain-not-class', 'a plain SelfReference field is not the class itself', {'oracle': 'selfref', 'spec': spec})
+        if kind == 'self_cust' and not (getattr(t, '__orig__', None) is K and t.Attributes.min_occurs == 1):
+            ctx.finding('selfref:customized', 'SelfReference.customize(min_occurs=1) did not become a min_occurs=1 variant of the class',
+                        {'oracle': 'selfref', 'spec': spec})
+
+
+def selfref_cases(ctx):
+    specs = [[['a', 'self_cust'], ['b', 'self']], [['a', 'int'], ['b', 'self_array'], ['c', 'self']],
+             [['a', 'self_cust'], ['b', 'self_cust2'], ['c', 'uni'], ['d', 'self']], [['a', 'self']],
+             [['a', 'self_array'], ['b', 'self_cust'], ['c', 'self_array']]]
+    for _ in range(300 if ctx.thorough else 40):
+        n = ctx.rng.choice([2, 3, 3, 4])
+        spec = [[FIELD_NAMES[i], ctx.rng.choice(SELF_KINDS)] for i in range(n)]
+        if not any(k.startswith('self') for _, k in spec):
+            spec[ctx.rng.randrange(n)][1] = 'self_cust'
+        specs.append(spec)
+    for i, spec in enumerate(specs):
+        selfref_check(ctx, spec, i)
 
 
 def recursive_case(ctx):
@@ -1605,11 +1763,13 @@ def replay(ctx, obj):
     core.assert_repo()
     print('replay of:', obj.get('what'))
     ops = obj.get('history') or obj.get('query', {}).get('history')
-    if ops is None:
+    if ops is None and obj.get('oracle') != 'selfref':
         print('nothing to replay:', {k: obj[k] for k in obj if k.startswith('broken')})
         return 0
     if obj.get('oracle') == 'recursive':
         recursive_case(ctx)
+    elif obj.get('oracle') == 'selfref':
+        selfref_check(ctx, obj['spec'], 0)
     elif obj.get('oracle') == 'hash-seed':
         other_seeds(ctx, [ops], [obj.get('hash_seed', 1)])
     else:
